@@ -105,11 +105,14 @@ func (ex *Exec) loopHead(l *Loop, b *ssa.BasicBlock, edges []edge, reachIn strin
 	if spec != nil && !vc.discover {
 		overlay := ex.scratchHeader(l, phiIn, st)
 		for k, inv := range spec.Invariants {
+			if modeSkip(inv, vc.conc) {
+				continue
+			}
 			t := ex.evalAtHeader(l, overlay, st, inv.Expr)
 			vc.oblige(fmt.Sprintf("loop%d.inv[%d].init", l.Ordinal, k+1), inv.Tag, b.Instrs[0].Pos(), reachIn, t, "invariant holds on entry: "+inv.Text)
 		}
 	}
-	if ex.parent == nil && !vc.discover {
+	if ex.parent == nil && !vc.discover && (!vc.conc || !l.Mod["SECTION"]) {
 		for _, key := range sortedKeys(l.Mod) {
 			if f := ex.frameFormula(key, st); f != "" {
 				vc.oblige(fmt.Sprintf("loop%d.frame.init[%s]", l.Ordinal, shortKey(key)), "frame", b.Instrs[0].Pos(), reachIn, f, "frame holds on loop entry for "+key)
@@ -165,11 +168,14 @@ func (ex *Exec) loopHead(l *Loop, b *ssa.BasicBlock, edges []edge, reachIn strin
 	if spec != nil && !vc.discover {
 		overlay := ex.scratchHeader(l, phiNew, nst)
 		for _, inv := range spec.Invariants {
+			if modeSkip(inv, vc.conc) {
+				continue
+			}
 			t := ex.evalAtHeader(l, overlay, nst, inv.Expr)
 			vc.assume(sImp(reach, t))
 		}
 	}
-	if ex.parent == nil && !vc.discover {
+	if ex.parent == nil && !vc.discover && (!vc.conc || !l.Mod["SECTION"]) {
 		for _, key := range sortedKeys(l.Mod) {
 			if f := ex.frameFormula(key, nst); f != "" {
 				vc.assume(sImp(reach, f))
@@ -253,6 +259,9 @@ func (ex *Exec) loopBack(l *Loop, from, header *ssa.BasicBlock) {
 		overlay := ex.scratchHeader(l, phiVals, st)
 		pos := header.Instrs[0].Pos()
 		for k, inv := range spec.Invariants {
+			if modeSkip(inv, vc.conc) {
+				continue
+			}
 			t := ex.evalAtHeader(l, overlay, st, inv.Expr)
 			name := fmt.Sprintf("loop%d.inv[%d].preserved", l.Ordinal, k+1)
 			if len(backEdgesOf(header)) > 1 {
@@ -265,7 +274,7 @@ func (ex *Exec) loopBack(l *Loop, from, header *ssa.BasicBlock) {
 		vc.oblige(fmt.Sprintf("loop%d.lock.balanced", l.Ordinal), "lock", header.Instrs[0].Pos(), guard,
 			sEq(ex.get(st, "HELD", "(Array Int Int)"), ex.get(ex.loopEntry[l], "HELD", "(Array Int Int)")), "each iteration releases exactly the locks it takes")
 	}
-	if ex.parent == nil {
+	if ex.parent == nil && (!vc.conc || !l.Mod["SECTION"]) {
 		for _, key := range sortedKeys(l.Mod) {
 			if f := ex.frameFormula(key, st); f != "" {
 				name := fmt.Sprintf("loop%d.frame.preserved[%s]", l.Ordinal, shortKey(key))
@@ -517,7 +526,11 @@ func (ex *Exec) frameFormula(key string, st *State) string {
 	}
 	srt := ex.vc.compSort[key]
 	now := ex.get(st, key, srt)
-	was := ex.get(ex.entry, key, srt)
+	oldSt := ex.entry
+	if st.old != nil {
+		oldSt = st.old
+	}
+	was := ex.get(oldSt, key, srt)
 	if now == was {
 		return ""
 	}
